@@ -77,7 +77,11 @@ def build(prop, need_harness=True):
         gen = os.path.join(ROOT, "tools", "gen_all.py")
         if os.path.exists(gen):
             rc, out, err, dt = sh([sys.executable, gen], cwd=ROOT, timeout=600)
-            if rc != 0:
+            if rc == 3:
+                # part of the generated model could not be regenerated: the poisoned file makes exactly
+                # the theorems that depend on it fail to build (reported below if this property is one)
+                r.messages.append("translator (partial): " + (out + err)[-1500:])
+            elif rc != 0:
                 r.ok = r.gen_ok = False
                 r.messages.append("translator failed: " + (out + err)[-2000:])
                 r.failed_obligations.append("translator:" + (out + err).strip().split("\n")[-1][:200])
